@@ -13,15 +13,34 @@
 
 typedef booster::locale::utf::utf_traits<char> btraits;
 
-// one decoder step on an exactly sized heap copy (ASan red zone right behind it):
-// returns value (0xFFFFFFFF illegal, 0xFFFFFFFE incomplete) and number of bytes consumed
+// An input iterator that refuses to be dereferenced at or past the end.  GCC 12 at -O1/-O2 with
+// -fsanitize=address,undefined was observed to drop the ASan check for a one-byte over-read inside the
+// inlined decoder templates (it reports it at -O0), so over-reads are detected here, deterministically.
+struct overread : public std::exception { char const *what() const throw() { return "iterator dereferenced at or past the end"; } };
+struct checked_it {
+	char const *p,*e;
+	checked_it(char const *p_,char const *e_):p(p_),e(e_){}
+	char operator*() const { if(p>=e) throw overread(); return *p; }
+	checked_it &operator++(){ ++p; return *this; }
+	checked_it operator++(int){ checked_it t(*this); ++p; return t; }
+	bool operator==(checked_it const &o) const { return p==o.p; }
+	bool operator!=(checked_it const &o) const { return p!=o.p; }
+};
+
+// one decoder step on an exactly sized heap copy (ASan red zone right behind it), once through plain
+// `char const*` (what the library instantiates) and once through the checked iterator; both must agree.
+// Returns value (0xFFFFFFFF illegal, 0xFFFFFFFE incomplete) and number of bytes consumed.
+struct iterator_mismatch : public std::exception { char const *what() const throw() { return "char const* and checked iterator instantiations disagree"; } };
 static inline void dec_step(int which,char const *b,size_t n,uint32_t &val,size_t &cons)
 {
 	char const *p=b, *e=b+n;
-	if(which==0) val=cppcms::utf8::next(p,e,false);
-	else if(which==1) val=cppcms::utf8::next(p,e,true);
-	else val=btraits::decode(p,e);
+	checked_it cp(b,e),ce(e,e);
+	uint32_t v2;
+	if(which==0) { v2=cppcms::utf8::next(cp,ce,false); val=cppcms::utf8::next(p,e,false); }
+	else if(which==1) { v2=cppcms::utf8::next(cp,ce,true); val=cppcms::utf8::next(p,e,true); }
+	else { v2=btraits::decode(cp,ce); val=btraits::decode(p,e); }
 	cons=p-b;
+	if(v2!=val || cp.p!=p) throw iterator_mismatch();
 }
 static int which_of(std::string const &w) { return w=="c0"?0:w=="c1"?1:w=="b"?2:-1; }
 
@@ -86,7 +105,9 @@ static std::string run(std::vector<std::string> const &w)
 		size_t count=0;
 		bool r1=utf8::validate(b,b+a.size(),count,html);
 		bool r2=utf8::validate(b,b+a.size(),html);
-		if(r1!=r2) return "overload-mismatch";
+		size_t count3=0;
+		bool r3=utf8::validate(checked_it(b,b+a.size()),checked_it(b+a.size(),b+a.size()),count3,html);
+		if(r1!=r2 || r1!=r3 || count!=count3) return "overload-mismatch";
 		return std::string(r1?"1 ":"0 ")+std::to_string(count);
 	}
 	if(w.size()==2 && w[0]=="vu") {
